@@ -1,6 +1,8 @@
 package main
 
 import (
+	"crypto/sha256"
+	"encoding/hex"
 	"encoding/json"
 	"flag"
 	"fmt"
@@ -62,6 +64,7 @@ type CheckResult struct {
 	Wall      float64
 	LoadS     float64
 	Corpus    map[string]interface{}
+	Lean      map[string]interface{}
 }
 
 // runProperty: generate and discharge every obligation tagged with the property.
@@ -247,6 +250,18 @@ func cmdCheck(args []string) int {
 	res.LoadS = loadS
 	if *tier == "thorough" && *outDir == "" && os.Getenv("SXV_NO_CORPUS") == "" {
 		res.Corpus = runCorpus(*repo, *prop)
+	}
+	usesLean := false
+	for a := range res.Assumed {
+		if strings.Contains(a, "(lean ") {
+			usesLean = true
+		}
+	}
+	if usesLean {
+		res.Lean = leanStatus(*tier == "thorough" && *outDir == "")
+		if st, _ := res.Lean["status"].(string); st == "failed" {
+			res.Errs = append(res.Errs, "lemma layer: lean reports errors in lemmas/lean/Orbit.lean: "+fmt.Sprint(res.Lean["output"]))
+		}
 	}
 	code := report(res, p, *repo, *tier, seed, *evidence, replayDir, *verbose, t0)
 	return code
@@ -438,6 +453,9 @@ func report(res *CheckResult, p *Program, repo, tier string, seed int, evidenceP
 	if res.Corpus != nil {
 		cov["must_fail_corpus"] = res.Corpus
 	}
+	if res.Lean != nil {
+		cov["lemma_layer"] = res.Lean
+	}
 	ev := evidenceFile{PropertyID: prop, Tier: tier, Seed: seed, Level: "proof", Coverage: cov, Assumptions: assumptions,
 		WallS: time.Since(t0).Seconds(), Violations: violations}
 	if evidencePath == "" {
@@ -570,4 +588,38 @@ func corpusOne(self, repo, patch, prop string) string {
 		return "caught"
 	}
 	return "missed"
+}
+
+// leanStatus: the number-theory lemmas (just lean Orbit.<name>) are proved in lemmas/lean/Orbit.lean with Lean 4 +
+// Mathlib. The thorough tier re-checks the file with `lean` (any error makes the check undecided); the quick tier
+// reports the file's hash and that it contains no sorry / axiom.
+func leanStatus(run bool) map[string]interface{} {
+	path := filepath.Join(verifDir, "lemmas", "lean", "Orbit.lean")
+	data, err := os.ReadFile(path)
+	if err != nil {
+		return map[string]interface{}{"status": "missing", "file": path}
+	}
+	sum := sha256.Sum256(data)
+	out := map[string]interface{}{"file": path, "sha256": hex.EncodeToString(sum[:]), "status": "not re-run in this tier (proved with lean 4.33 + Mathlib; the thorough tier re-checks)"}
+	txt := string(data)
+	if strings.Contains(txt, "sorry") || strings.Contains(txt, "\naxiom ") {
+		out["status"] = "failed"
+		out["output"] = "file contains sorry or axiom"
+		return out
+	}
+	if !run {
+		return out
+	}
+	t0 := time.Now()
+	cmd := exec.Command("lean", path)
+	cmd.Dir = filepath.Dir(path)
+	b, _ := cmd.CombinedOutput()
+	out["seconds"] = time.Since(t0).Seconds()
+	if strings.Contains(string(b), "error") {
+		out["status"] = "failed"
+		out["output"] = firstLines(string(b), 12)
+	} else {
+		out["status"] = "re-checked by lean: no errors"
+	}
+	return out
 }
